@@ -9,7 +9,10 @@ SEED_DIR = os.path.join(ROOT, "pools", "parse_seeds")
 # `align` (field_alignment) are restricted to the seed files: see notes/C18.md.
 CFGS_ALL_FILES = ["default", "w40", "w200", "tabs", "ts2", "nl2"]
 CFGS_SEEDS_ONLY = ["nosmall", "hoff", "hmax", "align", "crlf"]
-VARIANT_CFGS = ["default", "w40"]
+VARIANT_CFGS = ["default"]
+# newline_style=Windows is broken for every source with a blank line (notes/C18.md, mechanism 6):
+# only the first seeds are run under it, as representatives
+CRLF_SEEDS = 6
 VARIANT_MAX_TOKENS = 40
 
 
@@ -61,21 +64,15 @@ def variant_seeds(ctx, max_tokens=VARIANT_MAX_TOKENS):
 
 
 def enumerate_variants(ctx, seeds, pairs_sim=0, tlc_seed=11):
-    """TLC enumerates the insertions: every single one (BFS), plus a fixed-seed sample of pairs."""
+    """TLC enumerates the insertions (BFS): every single one, plus every pair at neighbouring boundaries."""
     sp = os.path.join(ctx.work, "gen_seeds.ndjson")
     write_ndjson(sp, [{"file": rel(m["file"]), "ntok": m["ntok"]} for m in seeds])
     g = ctx.tlc("Gen_Fmt", "Gen_Fmt1", workers=1, env={"SEEDS": sp}, count=False, name="GenFmt1")
     recs = g.printed("REPLAY")
     prs = []
     if pairs_sim:
-        g2 = ctx.tlc("Gen_Fmt", "Gen_Fmt2", workers=1, env={"SEEDS": sp}, simulate=pairs_sim, depth=3,
-                     tlc_seed=tlc_seed, count=False, name="GenFmt2")
-        seen = set()
-        for r in g2.printed("REPLAY"):
-            k = json.dumps(r, sort_keys=True)
-            if k not in seen:
-                seen.add(k)
-                prs.append(r)
+        g2 = ctx.tlc("Gen_Fmt", "Gen_Fmt2", workers=1, env={"SEEDS": sp}, count=False, name="GenFmt2")
+        prs = g2.printed("REPLAY")
     jobs = []
     for r in recs + prs:
         jobs.append({"file": seeds[r["seed"] - 1]["file"], "ins": [[x[0], x[1]] for x in r["ins"]]})
